@@ -163,6 +163,12 @@ def static_graph(ctx):
                 kind = "prelude Dec export"
             elif any("test" in x for x in c["ctx"]) or c["ctx"] and c["ctx"][0] == "mod tests":
                 kind = "inside test module"
+            elif c["attr"] == "cfg" and "not(" not in tok and ITEM_LEVEL.match(c["on"]) and \
+                    set(re.findall(r'feature="([^"]*)"', tok)) <= set(facts.f64_all_features().split()) | {"fpdec", "serde"}:
+                # a whole item that exists only WITH a feature (a positive predicate): it adds API and cannot change an
+                # existing body; that the existing bodies are unchanged with the feature on is what the additivity rule
+                # decides (the feature is part of the "all" configuration by construction)
+                kind = "additive item gate"
             ctx.ob("cfg-site", "%s:%s:%s" % (rel, c["on"], tok), kind is not None,
                    "unexpected cfg(feature) site `%s` on %s in %s: features could change existing behaviour here" % (c["tokens"], c["on"], "/".join(c["ctx"])),
                    "%s:%d" % (rel, c["line"]), nontrivial=False)
@@ -170,6 +176,7 @@ def static_graph(ctx):
     ctx.extra["cfg_feature_sites"] = len(known_kinds)
 
 
+ITEM_LEVEL = re.compile(r"^(const |fn |static |mod |struct |enum |type |trait |use$|impl$|macro$)")
 STRIP = ("sp", "span", "x", "index", "impl_index", "expn", "in_impl")
 
 
